@@ -224,7 +224,9 @@ class GenericCallAdapter(Adapter):
         old_node_kwargs = {kw.arg: kw.value for kw in old_node.keywords}
 
         to_insert = []
-        insert_pos = 0
+        # the position counts all arguments of the call, the keyword arguments
+        # follow the positional ones
+        insert_pos = len(old_node.args)
         for key, new_value_element in new_kwargs.items():
             if new_value_element.is_default:
                 continue
